@@ -11,7 +11,8 @@ From Coq Require Import Permutation.
 From CG3 Require Import Lib.PyZ Lib.Rose Model.Tree Model.TreeMid Spec.TreeSpec
   Proofs.TreeProofs Proofs.TreeSubProofs Proofs.TreeExtra Proofs.TreeMidProofs Proofs.TreeChain
   Proofs.NewickProofs Proofs.NewickMoreProofs Model.TreeJson Model.TreeDist Proofs.TreeDistProofs
-  Spec.TreeTopoSpec Proofs.TopoBase Proofs.TopoReroot Proofs.TopoOps Proofs.TopoSub Proofs.TopoChain.
+  Spec.TreeTopoSpec Proofs.TopoBase Proofs.TopoReroot Proofs.TopoOps Proofs.TopoSub Proofs.TopoChain
+  Model.TreeRemove Proofs.TreeRemoveProofs.
 
 (** ---- the distance is a (pseudo-)metric on the tips *)
 Theorem dist_symmetric : forall dflt t a b, pathlen dflt t a b = pathlen dflt t b a.
@@ -243,6 +244,36 @@ Proof. exact midpoint_receiver_topology. Qed.
 Theorem compositions_preserve_topology : forall t v, tsteps t v -> NoDup (tips t) ->
   Permutation (tips v) (tips t) /\ same_topology t v.
 Proof. exact chain_topology. Qed.
+
+(** ---- in-place pruning to a subset of tips: [remove_deleted(lambda n: n.name in D)] (Model/TreeRemove.v: a deleted
+    node goes with everything below it, then every ancestor left childless is climbed away), alone and followed
+    by [prune()].  [internal_free D t]: only tips are named in D (the usual call). *)
+Theorem remove_deleted_preserves_tips_and_dists : forall dflt D t a b,
+  internal_free D t = true -> kids t <> [] ->
+  (exists x, In x (tips t) /\ ~ In x D) ->
+  ~ In a D -> ~ In b D ->
+  tips (remove_deleted D t) = filter (fun n => negb (memb n D)) (tips t) /\
+  pathlen dflt (remove_deleted D t) a b = pathlen dflt t a b.
+Proof. exact remove_deleted_preserves. Qed.
+
+(** no spurious tips: everything left below the root that looks like a tip IS a kept original tip *)
+Theorem remove_deleted_leaves_no_new_tip : forall D t,
+  internal_free D t = true -> forall x, In x (tips_of (kids (remove_deleted D t))) -> In x (tips t) /\ ~ In x D.
+Proof. exact remove_deleted_no_new_tip. Qed.
+
+Theorem remove_deleted_then_prune_preserves_tips_and_dists : forall dflt D t a b,
+  has_lens t = true -> internal_free D t = true -> kids t <> [] ->
+  (exists x, In x (tips t) /\ ~ In x D) -> ~ In a D -> ~ In b D ->
+  Permutation (tips (prune (remove_deleted D t))) (filter (fun n => negb (memb n D)) (tips t)) /\
+  pathlen dflt (prune (remove_deleted D t)) a b = pathlen dflt t a b.
+Proof. exact remove_deleted_then_prune_preserves. Qed.
+
+(** topology: the splits of the result are the splits of the original restricted to the kept tips *)
+Theorem remove_deleted_then_prune_restricts_topology : forall D t,
+  has_lens t = true -> internal_free D t = true -> kids t <> [] ->
+  (exists x, In x (tips t) /\ ~ In x D) ->
+  splits_eq (tips (prune (remove_deleted D t))) (map (filter (kept D)) (cuts t)) (cuts (prune (remove_deleted D t))).
+Proof. exact remove_deleted_then_prune_topology. Qed.
 
 (** ---- newick: writing a tree ([get_newick], names escaped, with lengths) and parsing the text
     back ([make_tree], underscore_unmunge = True: tokeniser + parser + TreeBuilder naming) is the
